@@ -53,6 +53,13 @@ Theorem C06_tls_roundtrip : C06_tls_roundtrip_statement.
 Proof. exact tls_roundtrip. Qed.
 Print Assumptions C06_tls_roundtrip.
 
+(* ... and re-serializing the decoded layer gives the same bytes *)
+Theorem C06_tls_fixpoint : forall l csum junk bytes l' old d junk2,
+  tls_wf l -> tls_serialize l [] true csum junk = (Ok bytes, l') -> tls_decode_into old bytes = (d, Ok tt, false) ->
+  fst (tls_serialize d [] true csum junk2) = Ok bytes.
+Proof. exact tls_fixpoint. Qed.
+Print Assumptions C06_tls_fixpoint.
+
 (* the original FixLengths assigned to the loop variable (a copy): lengths were never fixed and the
    written record is rejected by the decoder *)
 Theorem C06_tls_fixlengths_orig_refuted : exists l bytes l', tls_wf l /\
